@@ -93,6 +93,9 @@ def norm_transform(t):
     return (canon(list(t.tsteps)), canon(list(t.rsteps)))
 
 
+_blobs = {}
+
+
 def op_run(op, cfg, state, seed, keyname):
     """Executes one operation on cfg; returns its normalised result.  state = objects created earlier in this history."""
     from dissect.cobaltstrike import c2, c2profile, client
@@ -143,10 +146,47 @@ def op_run(op, cfg, state, seed, keyname):
         except Exception as e:  # noqa: BLE001
             return ("exc", type(e).__name__, str(e)[:80])
         return tuple(res)
+    if kind == "session":
+        # a complete little session through a FRESH RSA-only decoder built from this configuration: the check-in (metadata,
+        # from which the decoder has to derive the session keys) followed by a task response.  What an earlier decoder
+        # of the same configuration has seen must not matter.
+        key = R.load_key(keyname)
+        h = c2.C2Http(cfg, rsa_private_key=key)
+        aes_rand = bytes((seed + i) & 0xFF for i in range(16)) if op[1] == "varying" else b"fedcba9876543210"
+        try:
+            md = c2.BeaconMetadata(magic=0xBEEF, size=0, aes_rand=aes_rand, ansi_cp=1252, oem_cp=437, bid=1234, pid=42, port=0, flag=4, ver_major=6,
+                                   ver_minor=2, ver_build=9200, ptr_x64=0, ptr_gmh=0, ptr_gpa=0, ip=0x0100007F, info=b"HOST\tuser\tp.exe")
+            # a beacon sends the very same encrypted blob at every check-in (PKCS#1 padding is random: encrypt once, keep it)
+            blob = _blobs.get((keyname, aes_rand))
+            if blob is None:
+                blob = _blobs[(keyname, aes_rand)] = c2.encrypt_metadata(md, h.pub)
+            req = h.transform_get.transform(c2.C2Data(metadata=blob), c2.HttpRequest(method=h.get_verb, uri=h.get_uris[0], params={}, headers={}, body=b""))
+            random.seed(seed)
+            first = [type(p).__name__ + ":" + (bytes(p.aes_rand).hex() if hasattr(p, "aes_rand") else "") for p in h.iter_recover_http(req)]
+            keys = c2.BeaconKeys.from_aes_rand(aes_rand)
+            task = c2.TaskPacket(epoch=1, total_size=12, command=c2.c2struct.BeaconCommand(4), size=4, data=b"\0\0\0d")
+            enc = c2.encrypt_packet(task.dumps(), **keys._asdict())
+            out = h.transform_response.transform(c2.C2Data(output=enc.ciphertext + enc.signature), c2.HttpRequest(method=b"", uri=b"", params={}, headers={}, body=b""))
+            resp = c2.HttpResponse(status=200, headers=dict(out.headers), reason=b"OK", body=out.body)
+            second = [(type(p).__name__, int(p.command), bytes(p.data)) for p in h.iter_recover_http(resp)]
+        except Exception as e:  # noqa: BLE001
+            return ("exc", type(e).__name__, str(e)[:120])
+        return (tuple(first), tuple(second))
     if kind == "mutate":
         view = getattr(cfg, op[1])
         how = op[2]
         key = next(iter(view), None)
+        if how == "value_bytes":
+            # byte values handed out by the mappings must be immutable bytes objects, not something with in-place operations
+            for k in view:
+                v = view[k]
+                if not isinstance(v, (bytes, int, str, list, tuple)) and v is not None and hasattr(v, "extend"):
+                    try:
+                        v.extend(b"!")
+                    except (TypeError, AttributeError) as e:
+                        return ("rejected", type(e).__name__)
+                    return ("ACCEPTED", f"{how} on {type(v).__name__} value of {k}")
+            return ("rejected", "all byte values are immutable")
         if how.startswith("value_"):
             # mutation through a value handed out by the mapping: the step lists of the structured settings
             lkeys = [k for k in view if isinstance(view[k], list)]
@@ -263,7 +303,7 @@ def _run_history(case, ctx, cfg, state, pristine, block, keyname, beacon):
                 ctx.violation("history.independence", f"op#{i} {op} after {i} earlier uses gives {core.short(repr(got or gexc), 300)}; on a fresh configuration {core.short(repr(want or wexc), 300)}", case)
                 return
     ops = [tuple(o) for o in case["ops"]]
-    builders = [i for i, o in enumerate(ops) if o[0] in ("c2http", "client", "profile", "transform")]
+    builders = [i for i, o in enumerate(ops) if o[0] in ("c2http", "client", "profile", "transform", "session")]
     nt = bool(builders) and builders[0] < len(ops) - 1
     ctx.ok(fp=(block, repr(ops)), nontrivial=nt, case={"source": case["source"], "ops": ops, "block_len": len(block)},
            classes=(f"src:{case['source']}", f"len:{'1-5' if len(ops) <= 5 else '6-25'}", *{f"op:{o[0]}" for o in ops}))
@@ -285,10 +325,12 @@ def gen_ops(rng, has_rsa, n):
             ops.append(("client",))
         elif r < 0.74:
             ops.append(("profile",))
-        elif r < 0.9:
+        elif r < 0.86:
             ops.append(("transform", rng.choice(["get", "submit", "response"])))
+        elif r < 0.9 and has_rsa:
+            ops.append(("session", rng.choice(["fixed", "fixed", "varying"])))
         else:
-            ops.append(("mutate", rng.choice(VIEWS), rng.choice(["setitem", "delitem", "update", "clear", "setdefault", "pop", "value_iadd", "value_append", "value_reverse", "value_clear", "value_setitem"])))
+            ops.append(("mutate", rng.choice(VIEWS), rng.choice(["setitem", "delitem", "update", "clear", "setdefault", "pop", "value_iadd", "value_append", "value_reverse", "value_clear", "value_setitem", "value_bytes"])))
     return ops
 
 
@@ -315,6 +357,12 @@ def run_shard(shard, ctx):
             keyname = rng.choice(["rsa1024_a", "rsa2048_a"])
             settings, _ = C.build_http_config(rng, keyname=keyname, extras=rng.random() < 0.7, allow_uri=rng.random() < 0.3)
             block = tlv.encode(settings) + b"\0\0"
+            if rng.random() < 0.15:
+                # the over-long User-Agent form: a 128-byte field without NUL, continued up to the NUL that follows it
+                k = next((i for i, st in enumerate(settings) if st[0] == 9), None)
+                if k is not None:
+                    ua = bytes(rng.choice(b"Mozilla/5.0 (Windows NT; Trident) abcdefghijklmnop") for _ in range(128 + rng.randrange(1, 120)))
+                    block = tlv.encode(settings[:k]) + tlv.S(9, 3, ua[:128]) + ua[128:] + b"\0" + tlv.encode(settings[k + 1 :]) + b"\0\0"
             check_case({"block": block, "keyname": keyname, "source": "builder", "ops": gen_ops(rng, True, rng.randrange(1, 26)), "seed": rng.getrandbits(30)}, ctx)
     else:
         names = [n for n in ("x86", "x64", "custom", "c2test", "puny") if sample_block(n) is not None]
